@@ -20,6 +20,14 @@ Ltac lstep := lazy beta iota zeta delta
                   v_x v_z v_need v_n v_now v_sec v_num v_length v_size v_i v_o v_s v_v v_offset v_timestamp
                   offs tss used hwm img st_offs st_tss st_used st_hwm st_img fst snd].
 
+Lemma Zlt0_ofN (n : N) : (Z.of_N n <? 0)%Z = false. Proof. lia. Qed.
+
+(* states are taken apart into their components first: every step then yields a state in constructor form *)
+Ltac dσ σ :=
+  destruct σ as [[o t u h f] [vx vz vneed vn vnow vsec vnum vlength vsize vi vo vs vv voffset vtimestamp] pos lim buf dat dlen ws err nw];
+  cbn [g_err g_vars g_st g_pos g_lim g_buf g_data g_dlen g_ws g_now
+       v_x v_z v_need v_n v_now v_sec v_num v_length v_size v_i v_o v_s v_v v_offset v_timestamp offs tss used hwm img].
+
 (* ---------- setHead ---------- *)
 Lemma call_setHead σ x z (a b : Z) k :
   g_err σ = false -> v_x (g_vars σ) = Z.of_N x -> v_z (g_vars σ) = Z.of_N z -> x < 32 -> z < 32 ->
@@ -29,11 +37,9 @@ Lemma call_setHead σ x z (a b : Z) k :
            ((g_ws σ ++ [mkwr (4 * idx x z) (be 4 (pat a))]) ++ [mkwr (4096 + 4 * idx x z) (be 4 (pat b))])
            false (g_now σ)).
 Proof.
-  intros He Hx Hz Hx32 Hz32. unfold call1, run, C14gen.setHead. step. rewrite He. step.
-  rewrite Hx, Hz. rewrite tie_head_pos, tie_head_pos_ts by assumption.
-  assert (forall n : N, (Z.of_N n <? 0)%Z = false) as Hnn by (intros; lia).
-  rewrite !Hnn, !N2Z.id. unfold c14_setHead_put32, c14_setHead_put32_1.
-  unfold phys, set_vars, set_pos, set_buf, set_ws, set_st. step. rewrite He. reflexivity.
+  dσ σ. intros He Hx Hz Hx32 Hz32. subst err vx vz. unfold call1, run, C14gen.setHead. lstep.
+  rewrite tie_head_pos, tie_head_pos_ts by assumption.
+  rewrite !Zlt0_ofN, !N2Z.id. unfold c14_setHead_put32, c14_setHead_put32_1. reflexivity.
 Qed.
 
 (* ---------- findSpace: the scan loop is Model.C14.find_space, step for step ---------- *)
@@ -66,21 +72,21 @@ Lemma scan_loop ret k σb rb need : g_err σb = false -> v_need rb = Z.of_N need
   end.
 Proof.
   intros He Hneed. change (2^31 - 1) with 2147483647.
-  induction fuel as [|f IH]; intros n i Hb; cbn [for_loop scan_ni]; [reflexivity|].
-  unfold fs_hi at 1. step. rewrite Hneed. unfold c14_findSpace_bound.
+  destruct σb as [[o t u h f] vs0 pos lim buf dat dlen ws err nw].
+  destruct rb as [vx vz vneed vn vnow vsec vnum vlength vsize vi vo vs vv voffset vtimestamp].
+  cbn [g_err v_need g_st used] in *. subst err vneed.
+  induction fuel as [|fu IH]; intros n i Hb; cbn [for_loop scan_ni]; [reflexivity|].
+  unfold fs_hi at 1. lstep. unfold c14_findSpace_bound.
   replace (Z.of_N i <? Z.of_N need)%Z with (i <? need) by lia.
   destruct (i <? need); [|reflexivity].
-  unfold fs_body at 1. step. rewrite He. step.
-  rewrite tie_probe by (change (2^31) with 2147483648; lia).
-  assert ((Z.of_N (n + i) <? 0)%Z = false) as -> by lia. rewrite N2Z.id.
-  destruct (getB (used (g_st σb)) (n + i)).
-  - step. rewrite He. step. rewrite tie_skip by (change (2^31) with 2147483648; lia).
+  unfold fs_body at 1. lstep.
+  rewrite tie_probe by (change (2^31) with 2147483648; lia). rewrite Zlt0_ofN, N2Z.id.
+  destruct (getB u (n + i)).
+  - rewrite tie_skip by (change (2^31) with 2147483648; lia).
     unfold c14_findSpace_i. change (wrap_s 32 (-1 + 1)) with (Z.of_N 0).
-    specialize (IH (n + i + 1) 0 ltac:(lia)). unfold set_vars in *. cbn [g_st g_vars g_pos g_lim g_buf g_data g_dlen g_ws g_err g_now] in *.
-    exact IH.
+    exact (IH (n + i + 1) 0 ltac:(lia)).
   - rewrite (ws32 (Z.of_N i + 1)) by lia. replace (Z.of_N i + 1)%Z with (Z.of_N (i + 1)) by lia.
-    specialize (IH n (i + 1) ltac:(lia)). unfold set_vars in *. cbn [g_st g_vars g_pos g_lim g_buf g_data g_dlen g_ws g_err g_now] in *.
-    exact IH.
+    exact (IH n (i + 1) ltac:(lia)).
 Qed.
 
 Lemma call_findSpace σ need k : g_err σ = false -> hwm (g_st σ) + need + 2 < 2^31 - 1 ->
@@ -147,7 +153,6 @@ Definition interp_write (s : st) (x z : N) (d : list N) (now : N) : option (st *
   | _ => None
   end.
 
-Lemma Zlt0_ofN (n : N) : (Z.of_N n <? 0)%Z = false. Proof. lia. Qed.
 
 Lemma sq_app {S K} (f : S -> K -> K) a b k : sq f (a ++ b) k = sq f a (sq f b k).
 Proof. induction a as [|x a IH]; cbn [app sq]; [reflexivity|]. now rewrite IH. Qed.
